@@ -3,9 +3,9 @@
 (* command per operation and step, built with RandomElement so that no       *)
 (* command set is ever enumerated; alphabets can therefore be the full token *)
 (* table.  Each behaviour is printed once, when it reaches MaxHist.          *)
-EXTENDS Keyspace, Json
+EXTENDS KeyspaceRand, Json
 
-CONSTANTS MaxHist, WithHooks
+CONSTANTS MaxHist
 
 VARIABLES st, hist, done
 vars == <<st, hist, done>>
@@ -13,38 +13,11 @@ vars == <<st, hist, done>>
 Init == st = EmptyState /\ hist = <<>> /\ done = FALSE
 
 Step(c) == LET r == Apply(st, c) IN
+           /\ Generable(st, c)
            /\ st' = r.st
            /\ hist' = Append(hist, [c |-> c, rr |-> r.rr, rj |-> r.rj, upd |-> r.upd])
            /\ UNCHANGED done
 
-\* ---- random generation for -simulate: one random command per operation, no set enumeration ----
-RE(S) == RandomElement(S)
-RandFu(min) == LET n == RE(min..2) IN [j \in 1..n |-> <<RE(FNames), RE(FValSet)>>]
-SimCmd(op) ==
-  CASE op = "set"      -> [op |-> "set", k |-> RE(Keys), id |-> RE(Ids), g |-> RE(GeoSet), fu |-> RandFu(0),
-                           ex |-> RE(BOOLEAN), cond |-> RE({"-", "-", "nx", "xx"})]
-    [] op = "fset"     -> [op |-> "fset", k |-> RE(Keys), id |-> RE(Ids), xx |-> RE(BOOLEAN), fu |-> RandFu(1)]
-    [] op = "del"      -> [op |-> "del", k |-> RE(Keys), id |-> RE(Ids), e404 |-> RE(BOOLEAN)]
-    [] op = "pdel"     -> [op |-> "pdel", k |-> RE(Keys), p |-> RE(PatSet)]
-    [] op = "drop"     -> [op |-> "drop", k |-> RE(Keys)]
-    [] op = "rename"   -> [op |-> "rename", k |-> RE(Keys), k2 |-> RE(Keys), nx |-> RE(BOOLEAN)]
-    [] op = "flushdb"  -> [op |-> "flushdb"]
-    [] op \in {"expire", "persist", "ttl", "exists"} -> [op |-> op, k |-> RE(Keys), id |-> RE(Ids)]
-    [] op = "get"      -> [op |-> "get", k |-> RE(Keys), id |-> RE(Ids), wf |-> RE(BOOLEAN)]
-    [] op \in {"fexists", "fget"} -> [op |-> op, k |-> RE(Keys), id |-> RE(Ids), n |-> RE(FNames)]
-    [] op = "type"     -> [op |-> "type", k |-> RE(Keys)]
-    [] op = "keys"     -> [op |-> "keys", p |-> RE(PatSet)]
-    [] op = "scan"     -> [op |-> "scan", k |-> RE(Keys), p |-> RE(PatSet), desc |-> RE(BOOLEAN),
-                           lim |-> RE(0..(Len(IdSeq) + 1)), out |-> RE({"ids", "count"})]
-    [] op = "sethook"  -> [op |-> "sethook", h |-> RE(HNames), k |-> RE(Keys), chan |-> RE(BOOLEAN)]
-    [] op = "delhook"  -> [op |-> "delhook", h |-> RE(HNames), chan |-> RE(BOOLEAN)]
-    [] op = "pdelhook" -> [op |-> "pdelhook", p |-> RE(PatSet), chan |-> RE(BOOLEAN)]
-    [] op = "hooks"    -> [op |-> "hooks", p |-> RE(PatSet), chan |-> RE(BOOLEAN)]
-SimOps == <<"set", "set", "set", "set", "set", "set", "fset", "fset", "fset", "del", "del", "pdel", "drop",
-            "rename", "rename", "expire", "persist", "ttl", "exists", "get", "get", "get", "fexists", "fget",
-            "type", "keys", "scan", "scan">>
-           \o (IF WithHooks THEN <<"sethook", "sethook", "delhook", "pdelhook", "hooks">> ELSE <<>>)
-           \o <<"flushdb">>
 \* the behaviour that was actually followed is printed exactly once, by its only final step
 Finish == /\ Len(hist) = MaxHist /\ ~done /\ done' = TRUE /\ UNCHANGED <<st, hist>>
           /\ PrintT(<<"TR", ToJson([h |-> hist, post |-> st])>>)
